@@ -25,8 +25,8 @@ ASSUMPTIONS = [
     "'same on every call' is judged on the same live object in one process (set iteration order is stable there)",
 ]
 PLAN = {"quick": dict(programs=5000, depth=3, values=8), "thorough": dict(programs=40000, depth=5, values=14)}
-FLOORS = {"quick": {"suite_marshal_outputs_judged": 150, "suite_tests_passed": 1400, "marshal_checked": 100000, "subclass_values": 12000, "literal_nonmember_checked": 5000, "shapes": 5000},
-          "thorough": {"suite_marshal_outputs_judged": 150, "suite_tests_passed": 1400, "marshal_checked": 900000, "subclass_values": 150000, "literal_nonmember_checked": 30000, "shapes": 30000}}
+FLOORS = {"quick": {"compound_key_mappings": 2000, "suite_marshal_outputs_judged": 150, "suite_tests_passed": 1400, "marshal_checked": 100000, "subclass_values": 12000, "literal_nonmember_checked": 5000, "shapes": 5000},
+          "thorough": {"compound_key_mappings": 20000, "suite_marshal_outputs_judged": 150, "suite_tests_passed": 1400, "marshal_checked": 900000, "subclass_values": 150000, "literal_nonmember_checked": 30000, "shapes": 30000}}
 
 
 class MyStr(str):
@@ -178,6 +178,9 @@ def check_output(sh, tsrc, T, v, prog, tag, spec=None, v0=None):
         if tag == "subclass":
             sh.count("subclass_rejected")  # rejecting a subclass instance is not a closure violation
             return
+        if tag == "compound-key":
+            sh.count("compound_key_rejected")  # key types beyond U (tuples, frozensets): refusing them is fine, emitting non-JSON is not
+            return
         sh.violation("marshal-raised", type_src=tsrc, value=short(v, 300), exc=type(e).__name__, detail=str(e)[:300], tag=tag,
                      module_src=prog.source[-2500:])
         return
@@ -247,6 +250,29 @@ def run_case(sh, i, plan):
                         sh.count("subclass_values")
                 sh.eval((tsrc, canon(v, strict=True)))
                 check_output(sh, tsrc, T, v, prog, tag, spec, v0)
+            # mappings keyed by compound hashables (beyond U, where keys are scalars): whatever marshal RETURNS is plain JSON data
+            if rng.random() < 0.3:
+                k1, k2, vs = gen.scalar(hashable=True), gen.scalar(hashable=True), gen.scalar()
+                form = rng.choice(["pair", "variadic", "frozenset", "nested"])
+                if form == "pair":
+                    ksrc, mk = f"tuple[{k1.src}, {k2.src}]", lambda: (vg.value(k1), vg.value(k2))
+                elif form == "variadic":
+                    ksrc, mk = f"tuple[{k1.src}, ...]", lambda: tuple(vg.value(k1) for _ in range(rng.randrange(0, 4)))
+                elif form == "frozenset":
+                    ksrc, mk = f"frozenset[{k1.src}]", lambda: frozenset(vg.value(k1) for _ in range(rng.randrange(0, 3)))
+                else:
+                    ksrc, mk = f"tuple[{k1.src}, tuple[{k2.src}, {k1.src}]]", lambda: (vg.value(k1), (vg.value(k2), vg.value(k1)))
+                msrc = rng.choice(["dict[{}, {}]", "typing.Mapping[{}, {}]", "list[dict[{}, {}]]"]).format(ksrc, vs.src)
+                try:
+                    MT = prog.ev(msrc)
+                    d = {mk(): vg.value(vs) for _ in range(rng.randrange(1, 4))}
+                    val = [d] if msrc.startswith("list[") else d
+                except Exception:  # noqa: BLE001  (unhashable draw)
+                    MT = None
+                if MT is not None:
+                    sh.count("compound_key_mappings")
+                    sh.eval((msrc, "compound-key", canon(val, strict=True)))
+                    check_output(sh, msrc, MT, val, prog, "compound-key")
             # Literal membership
             for lit in [s for s in spec.walk() if s.kind == "literal"][:2]:
                 members = lit.info["members"]
